@@ -274,7 +274,13 @@ def dryrun_window(cfg, rng, res):
                 c = MibCompiler(parserFactory()(), JsonCodeGen() if cfg['writer'] == 'file' else PySnmpCodeGen(), w)
                 c.addSources(CallbackReader(lambda n, ctx: texts.get(n)))
                 c.addSearchers(StubSearcher(*orch.BASE))
-                opts = {'dryRun': True} if mode == 'compile_dryRun' else {'writeMibs': False}
+                if mode == 'compile_dryRun':
+                    opts = rng.choice([{'dryRun': True}, {'dryRun': True, 'writeMibs': True},
+                                       {'dryRun': True, 'writeMibs': False}])
+                else:
+                    opts = rng.choice([{'writeMibs': False}, {'writeMibs': False, 'dryRun': False},
+                                       {'writeMibs': False, 'dryRun': None}])
+                opts = dict(opts, **rng.choice([{}, {'rebuild': True}, {'genTexts': True}, {'ignoreErrors': True}]))
                 r = c.compile('AA-MIB', **opts)
                 if r.get('AA-MIB') != 'compiled':
                     V('dryrun_compile_status', '%s: AA-MIB is %r' % (mode, r.get('AA-MIB')))
